@@ -1,11 +1,37 @@
 //! C08 — axis-wise reductions and scans equal the 1-D operation on every lane.  Index protocol:
 //! the model answers, for every output position, with the input positions of the lane; this harness extracts that lane
-//! from the real input, applies the SAME real operation with `axis = None` to it and compares bit-exactly.
+//! from the real input and judges the real result at that position by TWO oracles:
+//!  (a) lane oracle: the SAME real operation with `axis = None` on the lane, compared bit-exactly (all element types, all
+//!      operations; the only oracle for float sums/products, where the evaluation order matters);
+//!  (b) native oracle: a plain Rust fold over the lane values that calls nothing of the crate (exact i128 arithmetic for
+//!      integer sum/prod/cumsum/cumprod and their NaN forms; max/min/nanmax/nanmin by `partial_cmp`, NaN wins / NaN ignored;
+//!      count of non-zeros; FIRST position of the extreme, the first NaN winning) — the lane oracle cannot see a defect that
+//!      lives in the 1-D body itself, and the statement covers that body too ("with no axis the operation acts on the
+//!      flattened array", "position of the extreme").
+//! Every case is executed three times: the plain call, the plain call again (same answer required) and the chained call on
+//! `Ok(array)` through `impl … for Result<Array<T>, ArrayError>` (same answer required).
 use arrharness::*;
+use std::cmp::Ordering;
+use std::panic::{catch_unwind, AssertUnwindSafe};
 
 const REDUCE: [&str; 10] = ["sum", "prod", "nansum", "nanprod", "max", "min", "nanmax", "nanmin", "amax", "amin"];
 const COUNT: [&str; 3] = ["count_nonzero", "argmax", "argmin"];
 const SCAN: [&str; 4] = ["cumsum", "cumprod", "nancumsum", "nancumprod"];
+const FOLD: [&str; 4] = ["sum", "prod", "nansum", "nanprod"];
+const EXTREME: [&str; 6] = ["max", "min", "nanmax", "nanmin", "amax", "amin"];
+
+/// element types / value classes of the cross-type sweep (`i64` and `f64` are the original two streams)
+const DT_OPS: [&str; 8] = ["i64", "f64", "i64b", "i8", "i16", "i32", "f64s", "f32"];              // NumericOps: every operation
+const DT_NUM: [&str; 6] = ["u64", "usize", "isize", "u8", "u16", "u32"];                           // Numeric: extrema + count family
+const DT_ANY: [&str; 2] = ["bool", "str"];                                                         // ArrayElement: count family
+fn applicable(op: &str, dt: &str) -> bool {
+    if DT_OPS.contains(&dt) { return true; }
+    if DT_NUM.contains(&dt) { return EXTREME.contains(&op) || COUNT.contains(&op); }
+    DT_ANY.contains(&dt) && COUNT.contains(&op)
+}
+fn all_dtypes() -> Vec<&'static str> { DT_OPS.iter().chain(DT_NUM.iter()).chain(DT_ANY.iter()).copied().collect() }
+
+// ---------------------------------------------------------------- values
 
 fn vals_i64(n: usize, vseed: u64, prodlike: bool) -> Vec<i64> {
     let mut r = Rng::new(vseed ^ 0xC08);
@@ -23,18 +49,147 @@ fn vals_f64(n: usize, vseed: u64) -> Vec<f64> {
     }).collect()
 }
 
+const P53: i128 = 1 << 53;
+/// integer value classes inside `lo..=hi`.  Sums and products (and every prefix / every lane of them) stay inside the type
+/// (the harness is built with overflow checks): the absolute values are drawn against a budget.
+/// Extreme / count / position queries get: values next to the ends of the type, clusters of DISTINCT values above 2^53
+/// (which collapse to one f64), many repeated extremes, and small values.
+fn vals_int(n: usize, vseed: u64, op: &str, lo: i128, hi: i128) -> Vec<i128> {
+    let mut r = Rng::new(vseed ^ 0x1B08);
+    let wide = hi > (1 << 60);
+    let clip = |v: i128| v.max(lo).min(hi);
+    if op.contains("prod") {
+        let big = if wide { P53 + 1 } else { (hi / 5).max(2) };
+        let cands = [1, 1, -1, 1, -1, 2, -2, 3, big, 1, 1, -1, 1, 1, 0, 1, 1, 1, -1, 1, 1, 1, 1, 1];
+        let mut budget = hi;
+        let zero_ok = vseed % 2 == 0;
+        return (0..n).map(|_| {
+            let mut v = clip(cands[r.below(cands.len())]);
+            if v == 0 && !zero_ok { v = 1; }
+            let m = v.abs();
+            if m >= 2 { if m > budget { v = if v < 0 && lo < 0 { -1 } else { 1 }; } else { budget /= m; } }
+            v
+        }).collect();
+    }
+    if op.contains("sum") {
+        let cands: Vec<i128> = if wide { vec![P53 + 1, P53 + 2, -(P53 + 1), P53 + 3, 2 * P53 + 1, 3, -7, 1, 0, -(P53 + 2), (1 << 60) + 1, -1, 2, 0] }
+            else { vec![hi / 4, -(hi / 4), hi / 8 + 1, 3, -2, 1, 0, -1, 2, -3, hi / 2, 0] };
+        let mut budget = hi;
+        let sparse = n > 64;
+        return (0..n).map(|_| {
+            if sparse && r.below(4) != 0 { return 0; }
+            let v = clip(cands[r.below(cands.len())]);
+            if v.abs() > budget { 0 } else { budget -= v.abs(); v }
+        }).collect();
+    }
+    let top: Vec<i128> = if wide { vec![hi, hi - 1, hi - 2, P53, P53 + 1, P53 + 2, P53 + 3, 2 * P53 + 1, 2 * P53 + 2] } else { vec![hi, hi - 1, hi - 2, hi - 3] };
+    let bot: Vec<i128> = if lo < 0 { if wide { vec![lo, lo + 1, lo + 2, -P53, -P53 - 1, -P53 - 2, -P53 - 3] } else { vec![lo, lo + 1, lo + 2] } } else { vec![0, 1, 2] };
+    let small: Vec<i128> = (-4..=4).map(clip).collect();
+    (0..n).map(|_| match vseed % 5 {
+        0 => match r.below(3) { 0 => top[r.below(top.len())], 1 => bot[r.below(bot.len())], _ => small[r.below(small.len())] },
+        // a cluster of neighbouring values far above 2^53 (64-bit types) / next to the upper end: the extreme is rarely the first
+        1 => if wide { P53 + r.below(4) as i128 } else { hi - r.below(4) as i128 },
+        2 => if lo < 0 { if wide { -P53 - r.below(4) as i128 } else { lo + r.below(4) as i128 } } else { r.below(3) as i128 },
+        3 => if wide { if r.below(2) == 0 { hi - r.below(3) as i128 } else { 2 * P53 + r.below(3) as i128 } } else { hi - r.below(2) as i128 },
+        _ => if r.below(12) == 0 { top[r.below(top.len())] } else { small[r.below(small.len())] },
+    }).collect()
+}
+/// float value classes: subnormals, signed zeros, the ends of the range, NaN placed first / last / at random, infinities
+fn vals_flt(n: usize, vseed: u64, single: bool) -> Vec<f64> {
+    let mut r = Rng::new(vseed ^ 0xF1F0);
+    let cands: Vec<f64> = if single {
+        vec![1e-45, -1e-45, f32::MIN_POSITIVE as f64, -0.0, 0.0, 1.0, -1.0, f32::MAX as f64, -(f32::MAX as f64), 0.1f32 as f64, 16777216.0, 3.0, -2.5, 2.0, 0.0, -0.0]
+    } else {
+        vec![5e-324, -5e-324, 1e-310, f64::MIN_POSITIVE, -0.0, 0.0, 1.0, -1.0, f64::MAX, -f64::MAX, 0.1, 3.0, 9007199254740994.0, -2.5, 2.0, -0.0]
+    };
+    let mode = vseed % 6;
+    let mut v: Vec<f64> = (0..n).map(|_| match (mode, r.below(7)) {
+        (3, 0) => f64::NAN,
+        (4, 0) => f64::INFINITY, (4, 1) => f64::NEG_INFINITY, (4, 2) => f64::NAN,
+        (5, _) => if r.below(3) == 0 { cands[r.below(cands.len())] } else { f64::NAN },
+        _ => cands[r.below(cands.len())],
+    }).collect();
+    if n > 0 { if mode == 1 { v[0] = f64::NAN; } if mode == 2 { v[n - 1] = f64::NAN; } }
+    v
+}
+
+/// what the two oracles need to know about an element type
+trait Val: ArrayElement + Clone + std::fmt::Display + PartialOrd + 'static {
+    const LO: i128 = 0; const HI: i128 = 1; const FLOAT: bool = false; const SINGLE: bool = false;
+    /// bit-identical (all NaN alike)
+    fn same(&self, o: &Self) -> bool { self == o }
+    fn nan(&self) -> bool { false }
+    /// exact value of an integer element
+    fn int(&self) -> Option<i128> { None }
+    /// `Some(is zero)` where "zero" is unambiguous (numbers, bool)
+    fn zero_like(&self) -> Option<bool> { None }
+    fn of_int(i: i128) -> Self;
+    fn of_f64(_x: f64) -> Self { Self::of_int(0) }
+}
+macro_rules! val_int { ($($t:ty),*) => { $(impl Val for $t {
+    const LO: i128 = <$t>::MIN as i128; const HI: i128 = <$t>::MAX as i128;
+    fn int(&self) -> Option<i128> { Some(*self as i128) }
+    fn zero_like(&self) -> Option<bool> { Some(*self == 0) }
+    fn of_int(i: i128) -> Self { i as $t }
+})* } }
+val_int!(i8, i16, i32, i64, isize, u8, u16, u32, u64, usize);
+impl Val for f64 {
+    const FLOAT: bool = true;
+    fn same(&self, o: &Self) -> bool { (self.is_nan() && o.is_nan()) || self.to_bits() == o.to_bits() }
+    fn nan(&self) -> bool { self.is_nan() }
+    fn zero_like(&self) -> Option<bool> { Some(*self == 0.0) }
+    fn of_int(i: i128) -> Self { i as f64 }
+    fn of_f64(x: f64) -> Self { x }
+}
+impl Val for f32 {
+    const FLOAT: bool = true; const SINGLE: bool = true;
+    fn same(&self, o: &Self) -> bool { (self.is_nan() && o.is_nan()) || self.to_bits() == o.to_bits() }
+    fn nan(&self) -> bool { self.is_nan() }
+    fn zero_like(&self) -> Option<bool> { Some(*self == 0.0) }
+    fn of_int(i: i128) -> Self { i as f32 }
+    fn of_f64(x: f64) -> Self { x as f32 }
+}
+impl Val for bool {
+    fn zero_like(&self) -> Option<bool> { Some(!*self) }
+    fn of_int(i: i128) -> Self { i.rem_euclid(3) != 0 }
+}
+impl Val for String {
+    fn of_int(i: i128) -> Self { ["", "0", "a", "ab", "b", "zz", "Z", "0", "zz", "10", "1", "a"][i.rem_euclid(12) as usize].to_string() }
+}
+
+fn gen_vals<T: Val>(dt: &str, n: usize, vseed: u64, op: &str) -> Vec<T> {
+    match dt {
+        "i64" => vals_i64(n, vseed, op.contains("prod")).into_iter().map(|x| T::of_int(x as i128)).collect(),
+        "f64" => vals_f64(n, vseed).into_iter().map(T::of_f64).collect(),
+        "bool" | "str" => { let mut r = Rng::new(vseed ^ 0x57); (0..n).map(|_| T::of_int(r.below(12) as i128)).collect() }
+        _ if T::FLOAT => vals_flt(n, vseed, T::SINGLE).into_iter().map(T::of_f64).collect(),
+        _ => vals_int(n, vseed, op, T::LO, T::HI).into_iter().map(T::of_int).collect(),
+    }
+}
+
+// ---------------------------------------------------------------- gen
+
+fn axes_of(nd: isize) -> Vec<String> {
+    let mut axes: Vec<String> = vec!["none".into()];
+    for a in 0..nd { axes.push(a.to_string()); axes.push((a - nd).to_string()); }
+    axes
+}
+
 fn gen(tier: &str, seed: u64, out: &mut dyn FnMut(String)) {
     let thorough = tier == "thorough";
     let mut rng = Rng::new(seed);
     // corpus: the rank-4 middle-axis cases that the pinned tree got wrong
     for l in ["sum i64 i2,3,2,2 1 none 1", "cumsum i64 i2,3,2,2 1 none 1", "sum f64 i2,2,2,2 2 none 4", "argmax i64 i2,3,2,2 -3 none 2", "max f64 i1,2,3,2 1 none 5"] { out(l.to_string()); }
+    // corpus 2: the classes of the round-2 seeded changes (distinct integers above 2^53 that tie as f64; NaN inside a float
+    // lane on the chained receiver; repeated maxima in a lane longer than 4096)
+    for l in ["max i64b i2,3 1 none 1", "amax u64 i2,3 0 none 1", "max i64b i6 none none 6", "cumprod f64s i2,3 1 none 1", "cumprod f64 i2,3 -2 none 4",
+              "argmax i64 i4100 none none 3", "argmax u8 i4100 0 none 1"] { out(l.to_string()); }
     let mut all = shapes(1, 4, 1, 3);
     if thorough { all.extend(shapes(5, 5, 1, 2)); }
     let ops: Vec<&str> = REDUCE.iter().chain(COUNT.iter()).chain(SCAN.iter()).copied().collect();
     for s in &all {
         let nd = s.len() as isize;
-        let mut axes: Vec<String> = vec!["none".into()];
-        for a in 0..nd { axes.push(a.to_string()); axes.push((a - nd).to_string()); }
+        let axes = axes_of(nd);
         for op in &ops { for ax in &axes { for dt in ["i64", "f64"] {
             let kds: Vec<&str> = if COUNT.contains(op) { vec!["none", "true", "false"] } else { vec!["none"] };
             for kd in kds {
@@ -57,72 +212,289 @@ fn gen(tier: &str, seed: u64, out: &mut dyn FnMut(String)) {
         let kd = if COUNT.contains(&op) { *rng.pick(&["none", "true", "false"]) } else { "none" };
         out(format!("{op} {} {} {ax} {kd} {}", *rng.pick(&["i64", "f64"]), tag(&s), rng.next() % 3000));
     }
+
+    // ---------------- robustness streams (FRAMEWORK.md) ----------------
+    let dts = all_dtypes();
+    let new_dts: Vec<&str> = dts.iter().copied().filter(|d| *d != "i64" && *d != "f64").collect();
+    let kd_all = ["none", "true", "false"];
+    // (3) element types / value classes: every operation x every axis spelling x every further element type, on every shape of
+    //     rank <= 3 (len <= 3) plus rank-4 shapes whose middle axes matter; the value class rotates with the seed
+    let mut tshapes = shapes(1, 3, 1, 3);
+    tshapes.extend([vec![2, 3, 2, 2], vec![2, 1, 2, 3], vec![1, 2, 3, 2], vec![6], vec![2, 6], vec![7, 2]]);
+    if thorough { tshapes.extend(shapes(4, 4, 1, 2)); tshapes.extend([vec![3, 3, 3, 3], vec![2, 2, 3, 2, 2]]); }
+    let mut k = 0u64;
+    for s in &tshapes { for op in &ops { for ax in &axes_of(s.len() as isize) { for dt in &new_dts {
+        if !applicable(op, dt) { continue; }
+        let kds: Vec<&str> = if COUNT.contains(op) { if thorough { kd_all.to_vec() } else { vec![kd_all[(k % 3) as usize]] } } else { vec!["none"] };
+        for kd in kds { let reps = if thorough { 3 } else { 1 }; for _ in 0..reps { k += 1; out(format!("{op} {dt} {} {ax} {kd} {}", tag(s), (rng.next() % 997) * 30 + k % 30)); } }
+    } } } }
+    // (2) zero-length axes: every operation, every axis (both spellings, none, out of range), keepdims, three element types
+    for s in &zero_shapes() {
+        let nd = s.len() as isize;
+        let mut axes = axes_of(nd); axes.push(nd.to_string()); axes.push((-nd - 1).to_string());
+        for op in &ops { for ax in &axes { for dt in ["i64", "f64", "u8", "i8", "str"] {
+            if !applicable(op, dt) { continue; }
+            let kds: Vec<&str> = if COUNT.contains(op) { kd_all.to_vec() } else { vec!["none"] };
+            for kd in kds { out(format!("{op} {dt} {} {ax} {kd} {}", tag(s), rng.next() % 60)); }
+        } } }
+    }
+    // (1) sizes: axis lengths 7..17 in every position, element counts > 256 / 1024 / 4096; the element type rotates.
+    //     The model driver is quadratic in the element count, so shapes above 2000 elements get fewer axis/keepdims combinations.
+    let mut j = 0usize;
+    for s in &big_shapes() {
+        let n: usize = s.iter().product();
+        let nd = s.len() as isize;
+        let axes: Vec<String> = if n > 2000 { let mut a = vec!["none".to_string(), (nd - 1).to_string()]; if nd > 1 { a.push((-nd).to_string()); } else { a.push("-1".into()); } a } else { axes_of(nd) };
+        for ax in &axes { for op in &ops {
+            let kds: Vec<&str> = if !COUNT.contains(op) { vec!["none"] } else if n > 2000 { vec![if ax == "none" { "true" } else { "none" }] } else { kd_all.to_vec() };
+            for kd in kds {
+                // two element types per combination, walking through all applicable ones
+                let cands: Vec<&str> = dts.iter().copied().filter(|d| applicable(op, d)).collect();
+                for t in 0..2 { j += 1; let dt = cands[(j * 7 + t * 3) % cands.len()]; out(format!("{op} {dt} {} {ax} {kd} {}", tag(s), rng.next() % 30000)); }
+            }
+        } }
+    }
+    //     lanes longer than 4096 with repeated extreme values (small value ranges / clusters => many ties): the position and
+    //     extreme queries on every applicable element type, the other operations on one
+    let mut long: Vec<(Vec<usize>, Vec<&str>)> = vec![(vec![4100], vec!["none", "0", "-1"]), (vec![2, 4100], vec!["1"])];
+    if thorough { long.extend([(vec![4100, 2], vec!["0", "-2"]), (vec![1, 4200, 1], vec!["1", "-2", "none"]), (vec![3, 1400], vec!["none"]), (vec![2, 4100], vec!["-1", "none"])]); }
+    for (s, axes) in &long { for ax in axes {
+        for op in &ops {
+            let kd = if COUNT.contains(op) && ax != &"none" { "true" } else { "none" };
+            for dt in &dts {
+                if !applicable(op, dt) { continue; }
+                let query = COUNT.contains(op) || EXTREME.contains(op);
+                if !query && !["i64", "f64s", "i32"].contains(dt) { continue; }
+                let reps = if query && ["i64", "u8", "f64", "i64b"].contains(dt) { 3 } else { 1 };
+                for _ in 0..reps { out(format!("{op} {dt} {} {ax} {kd} {}", tag(s), rng.next() % 30000)); }
+            }
+        }
+    } }
+    // (5)+random: further element types on random shapes of rank 1..5 with one long axis (7..17) in a random position
+    let n_rand2 = if thorough { 12000 } else { 3000 };
+    for _ in 0..n_rand2 {
+        let nd = 1 + rng.below(5);
+        let mut s: Vec<usize> = (0..nd).map(|_| 1 + rng.below(3)).collect();
+        if rng.below(3) != 0 { let p = rng.below(nd); s[p] = 7 + rng.below(11); }
+        let op = *rng.pick(&ops);
+        let cands: Vec<&str> = dts.iter().copied().filter(|d| applicable(op, d)).collect();
+        let dt = *rng.pick(&cands);
+        let ax = if rng.below(8) == 0 { "none".to_string() } else { let a = rng.below(nd) as isize; (if rng.below(2) == 0 { a } else { a - nd as isize }).to_string() };
+        let kd = if COUNT.contains(&op) { *rng.pick(&kd_all) } else { "none" };
+        out(format!("{op} {dt} {} {ax} {kd} {}", tag(&s), rng.next() % 30000));
+    }
 }
 
-fn parse_lanes(s: &str) -> Option<(Vec<usize>, Vec<Vec<usize>>)> {
+// ---------------------------------------------------------------- exec
+
+/// model answer -> (shape, per output position (position inside the lane, lane id), lanes)
+fn parse_lanes(s: &str) -> Option<(Vec<usize>, Vec<(usize, usize)>, Vec<Vec<usize>>)> {
     let (sh, body) = s.split_once(':')?;
     let shape = parse_usize_list(sh);
-    let lanes = if body == "-" { vec![] } else { body.split('|').map(parse_usize_list).collect() };
-    Some((shape, lanes))
+    let mut lanes: Vec<Vec<usize>> = vec![];
+    let mut outs: Vec<(usize, usize)> = vec![];
+    let mut lane_of_out: Vec<usize> = vec![];
+    if body != "-" {
+        for el in body.split('|') {
+            if let Some((j, k)) = el.split_once('=') {
+                let id = *lane_of_out.get(k.parse::<usize>().ok()?)?;
+                outs.push((j.parse().ok()?, id)); lane_of_out.push(id);
+            } else {
+                lanes.push(if el == "e" { vec![] } else { parse_usize_list(el) });
+                outs.push((usize::MAX, lanes.len() - 1)); lane_of_out.push(lanes.len() - 1);
+            }
+        }
+    }
+    Some((shape, outs, lanes))
 }
 
-trait Bits: Copy { fn bits(self) -> u64; }
-impl Bits for i64 { fn bits(self) -> u64 { self as u64 } }
-impl Bits for usize { fn bits(self) -> u64 { self as u64 } }
-impl Bits for f64 { fn bits(self) -> u64 { if self.is_nan() { 0x7ff8_0000_0000_0000 } else { self.to_bits() } } }
+fn show_out<R: Val>(r: &Result<Array<R>, ArrayError>) -> String {
+    show_res(r, |a| format!("{}:{}", show_list(&a.get_shape().unwrap()), show_list(&a.get_elements().unwrap())))
+}
 
-/// compare one real result against the model's lane map, lane results computed by `lane_op` (the same real 1-D operation)
-fn judge<T: ArrayElement + Copy, R: ArrayElement + Bits + std::fmt::Display>(
-    vals: &[T], observed: Result<Array<R>, ArrayError>, expected: &str, scan: bool,
-    lane_op: &dyn Fn(&Array<T>) -> Result<Array<R>, ArrayError>) -> Verdict {
-    let obs_text = show_res(&observed, |a| format!("{}:{}", show_list(&a.get_shape().unwrap()), show_list(&a.get_elements().unwrap())));
+/// what the native oracle expects at one output position
+enum Want<R> { Int(i128), Is(R), Nan }
+impl<R: Val> Want<R> {
+    fn agrees(&self, got: &R) -> bool {
+        match self { Want::Int(i) => got.int() == Some(*i), Want::Is(v) => got.partial_cmp(v) == Some(Ordering::Equal), Want::Nan => got.nan() }
+    }
+    fn show(&self) -> String { match self { Want::Int(i) => i.to_string(), Want::Is(v) => v.to_string(), Want::Nan => "NaN".into() } }
+}
+
+/// compare one real result against the model's lane map: shape, consistency, then per output position the lane oracle
+/// (`lane_op`, the same real 1-D operation, bit-exact) and the native oracle (`native`: per lane the expected values, one for a
+/// reduction, one per lane position for a scan; `None` = no native reference for this operation / element type)
+fn judge<T: Val, R: Val>(vals: &[T], observed: &Result<Array<R>, ArrayError>, expected: &str, scan: bool,
+    lane_op: &dyn Fn(&Array<T>) -> Result<Array<R>, ArrayError>, native: &dyn Fn(&[T]) -> Option<Vec<Want<R>>>) -> Verdict {
+    let obs_text = show_out(observed);
     if !expected.starts_with("ok ") { return compare_default(obs_text, expected); }
-    let arr = match observed { Ok(a) => a, Err(_) => return Verdict::Mismatch { observed: obs_text, detail: format!("model says `{}`", truncate(expected, 200)) } };
-    let (shape, lanes) = match parse_lanes(&expected[3..]) { Some(x) => x, None => return Verdict::Mismatch { observed: obs_text, detail: "unparsable model answer".into() } };
-    if !consistent(&arr) { return Verdict::Mismatch { observed: obs_text, detail: "result violates shape/length consistency".into() } }
+    let (shape, outs, lanes) = match parse_lanes(&expected[3..]) { Some(x) => x, None => return Verdict::Mismatch { observed: obs_text, detail: "unparsable model answer".into() } };
+    // lane values and the 1-D operation on each distinct lane, once
+    let mut lane_vals: Vec<Vec<T>> = Vec::with_capacity(lanes.len());
+    let mut lane_res: Vec<Result<Vec<R>, String>> = Vec::with_capacity(lanes.len());
+    for l in &lanes {
+        if scan && l.is_empty() { return Verdict::Mismatch { observed: obs_text, detail: "unparsable model answer (empty scan element)".into() } }
+        let idxs: &[usize] = if scan { &l[1..] } else { &l[..] };
+        if idxs.iter().any(|&t| t >= vals.len()) { return Verdict::Mismatch { observed: obs_text, detail: "model names an input position outside the array".into() } }
+        let lv: Vec<T> = idxs.iter().map(|&t| vals[t].clone()).collect();
+        let lane_arr = Array::new(lv.clone(), vec![lv.len()]).unwrap();
+        lane_res.push(match catch_unwind(AssertUnwindSafe(|| lane_op(&lane_arr))) {
+            Ok(Ok(r)) => Ok(r.get_elements().unwrap()),
+            Ok(Err(e)) => Err(format!("fails: {}", err_name(&e))),
+            Err(_) => Err("panics".to_string()),
+        });
+        lane_vals.push(lv);
+    }
+    let idx_text = |id: usize| truncate(&show_list(if scan { &lanes[id][1..] } else { &lanes[id][..] }), 300);
+    let arr = match observed {
+        Ok(a) => a,
+        // the model runs a lane-collecting body that always succeeds; the real 1-D body may refuse a lane (max / argmax of an
+        // empty lane): then, and only then, the refusal of the array operation is the lane-wise answer
+        Err(_) => return match lane_res.iter().position(|r| matches!(r, Err(m) if m.starts_with("fails"))) {
+            Some(_) => Verdict::Match(obs_text),
+            None => Verdict::Mismatch { observed: obs_text, detail: format!("model says `{}` and the 1-D operation succeeds on every lane", truncate(expected, 200)) },
+        },
+    };
+    if let Some(id) = lane_res.iter().position(|r| r.is_err()) {
+        return Verdict::Mismatch { detail: format!("1-D operation on lane {} {}, array operation returned a value", idx_text(id), lane_res[id].as_ref().err().unwrap()), observed: obs_text };
+    }
+    if !consistent(arr) { return Verdict::Mismatch { observed: obs_text, detail: "result violates shape/length consistency".into() } }
     if arr.get_shape().unwrap() != shape { return Verdict::Mismatch { observed: obs_text, detail: format!("shape differs: theorem says {:?}", shape) } }
     let got = arr.get_elements().unwrap();
-    if got.len() != lanes.len() { return Verdict::Mismatch { observed: obs_text, detail: "element count differs".into() } }
-    for (p, lane) in lanes.iter().enumerate() {
-        let (j, idxs) = if scan { (lane[0], &lane[1..]) } else { (0, &lane[..]) };
-        let lane_vals: Vec<T> = idxs.iter().map(|&t| vals[t]).collect();
-        let lane_arr = Array::new(lane_vals, vec![idxs.len()]).unwrap();
-        let want = match lane_op(&lane_arr) { Ok(r) => r.get_elements().unwrap(), Err(e) => return Verdict::Mismatch { observed: obs_text, detail: format!("1-D operation on lane {:?} fails: {}", idxs, err_name(&e)) } };
-        if j >= want.len() || want[j].bits() != got[p].bits() {
-            return Verdict::Mismatch { detail: format!("output position {p}: lane = input positions {:?}; 1-D operation on that lane gives {} there, array operation returned {}", idxs,
+    if got.len() != outs.len() { return Verdict::Mismatch { observed: obs_text, detail: "element count differs".into() } }
+    let lane_nat: Vec<Option<Vec<Want<R>>>> = lane_vals.iter().map(|lv| native(lv)).collect();
+    for (p, &(j0, id)) in outs.iter().enumerate() {
+        let j = if scan { if j0 == usize::MAX { lanes[id][0] } else { j0 } } else { 0 };
+        let want = lane_res[id].as_ref().ok().unwrap();
+        if j >= want.len() || !want[j].same(&got[p]) {
+            return Verdict::Mismatch { detail: format!("output position {p}: lane = input positions {}; 1-D operation on that lane gives {} there, array operation returned {}", idx_text(id),
                 want.get(j).map_or("<nothing>".to_string(), |x| x.to_string()), got[p]), observed: obs_text };
+        }
+        if let Some(w) = lane_nat[id].as_ref().and_then(|n| n.get(j)) {
+            if !w.agrees(&got[p]) {
+                return Verdict::Mismatch { detail: format!("output position {p}: lane = input positions {}, values {}; the operation returned {}, but the independent reference (plain Rust over the lane values: exact integer arithmetic / comparison of the elements, NaN rules, FIRST position) gives {}",
+                    idx_text(id), truncate(&show_list(&lane_vals[id]), 300), got[p], w.show()), observed: obs_text };
+            }
         }
     }
     Verdict::Match(obs_text)
 }
 
-fn run_typed<T>(op: &str, vals: Vec<T>, shape: Vec<usize>, axis: Option<isize>, kd: Option<bool>, expected: &str) -> Option<Verdict>
-where T: NumericOps + ArrayElement + Copy + Bits + std::fmt::Display {
-    let a = Array::new(vals.clone(), shape).unwrap();
-    macro_rules! red { ($m:ident) => {{ let o = std::panic::catch_unwind(std::panic::AssertUnwindSafe(|| a.$m(axis)));
-        match o { Ok(r) => judge(&vals, r, expected, false, &|l: &Array<T>| l.$m(None)), Err(_) => compare_default("panic".into(), expected) } }} }
-    macro_rules! scn { ($m:ident) => {{ let o = std::panic::catch_unwind(std::panic::AssertUnwindSafe(|| a.$m(axis)));
-        match o { Ok(r) => judge(&vals, r, expected, true, &|l: &Array<T>| l.$m(None)), Err(_) => compare_default("panic".into(), expected) } }} }
-    macro_rules! cnt { ($m:ident) => {{ let o = std::panic::catch_unwind(std::panic::AssertUnwindSafe(|| a.$m(axis, kd)));
-        match o { Ok(r) => judge(&vals, r, expected, false, &|l: &Array<T>| l.$m(None, None)), Err(_) => compare_default("panic".into(), expected) } }} }
+/// native oracle, value-valued operations: plain Rust over the lane values, nothing of the crate
+fn native_val<T: Val>(op: &str, lane: &[T]) -> Option<Vec<Want<T>>> {
+    if lane.is_empty() { return None; }
+    if FOLD.contains(&op) || SCAN.contains(&op) {
+        let ints: Vec<i128> = lane.iter().map(|x| x.int()).collect::<Option<Vec<i128>>>()?;     // floats: evaluation order matters, lane oracle only
+        let prod = op.contains("prod");
+        let mut acc: i128 = if prod { 1 } else { 0 };
+        let run: Vec<i128> = ints.iter().map(|&x| { acc = if prod { acc.checked_mul(x).unwrap_or(i128::MAX) } else { acc + x }; acc }).collect();
+        return Some(if SCAN.contains(&op) { run.into_iter().map(Want::Int).collect() } else { vec![Want::Int(*run.last().unwrap())] });
+    }
+    let nan_forms = op.starts_with("nan");
+    let is_max = op.contains("max");
+    if !nan_forms && lane.iter().any(|x| x.nan()) { return Some(vec![Want::Nan]); }
+    let kept: Vec<&T> = lane.iter().filter(|x| !x.nan()).collect();
+    if kept.is_empty() { return Some(vec![Want::Nan]); }
+    let mut best = kept[0];
+    for x in &kept[1..] { let o = x.partial_cmp(&best); if (is_max && o == Some(Ordering::Greater)) || (!is_max && o == Some(Ordering::Less)) { best = x; } }
+    Some(vec![Want::Is(best.clone())])
+}
+/// native oracle, position / count queries
+fn native_cnt<T: Val>(op: &str, lane: &[T]) -> Option<Vec<Want<usize>>> {
+    if op == "count_nonzero" {
+        let z: Vec<bool> = lane.iter().map(|x| x.zero_like()).collect::<Option<Vec<bool>>>()?;
+        return Some(vec![Want::Int(z.iter().filter(|b| !**b).count() as i128)]);
+    }
+    if lane.is_empty() { return None; }
+    let is_max = op == "argmax";
+    let want = match lane.iter().position(|x| x.nan()) {
+        Some(i) => i,
+        None => { let mut b = 0; for i in 1..lane.len() { let o = lane[i].partial_cmp(&lane[b]); if (is_max && o == Some(Ordering::Greater)) || (!is_max && o == Some(Ordering::Less)) { b = i; } } b }
+    };
+    Some(vec![Want::Int(want as i128)])
+}
+
+type Caught<R> = std::thread::Result<Result<Array<R>, ArrayError>>;
+fn text_of<R: Val>(r: &Caught<R>) -> String { match r { Ok(r) => show_out(r), Err(_) => "panic".into() } }
+/// judge the plain call, then require the repeated plain call and the chained call to answer alike
+fn finish<R: Val>(p1: Caught<R>, p2: Caught<R>, ch: Caught<R>, expected: &str, judge1: &dyn Fn(&Result<Array<R>, ArrayError>) -> Verdict) -> Verdict {
+    let v = match &p1 { Ok(r) => judge1(r), Err(_) => compare_default("panic".into(), expected) };
+    if let Verdict::Match(t) = &v {
+        let alike = |x: &str| x == t || (class_of(x) == "err" && class_of(t) == "err");
+        let (t2, tc) = (text_of(&p2), text_of(&ch));
+        if !alike(&t2) { return Verdict::Mismatch { observed: t.clone(), detail: format!("the same call a second time answers `{}`", truncate(&t2, 300)) }; }
+        if !alike(&tc) {
+            // is the chained answer at least what the model + lane oracle accept?  (only for the report)
+            return Verdict::Mismatch { observed: format!("chained: {}", tc), detail: format!("RECEIVER-DIVERGENCE: the chained call on Ok(array) (impl … for Result<Array<T>, ArrayError>) answers `{}`, the plain call `{}`", truncate(&tc, 300), truncate(t, 300)) };
+        }
+    }
+    v
+}
+
+macro_rules! three { ($a:ident, $T:ty, |$x:ident| $e:expr) => {{
+    let p1 = catch_unwind(AssertUnwindSafe(|| { let $x = &$a; $e }));
+    let p2 = catch_unwind(AssertUnwindSafe(|| { let $x = &$a; $e }));
+    let ch = catch_unwind(AssertUnwindSafe(|| { let r: Result<Array<$T>, ArrayError> = Ok($a.clone()); let $x = &r; $e }));
+    (p1, p2, ch)
+}} }
+
+struct Case<'a> { op: &'a str, dt: &'a str, shape: Vec<usize>, axis: Option<isize>, kd: Option<bool>, vseed: u64, expected: &'a str }
+
+fn run_any<T: Val>(c: &Case) -> Option<Verdict> {
+    let n: usize = c.shape.iter().product();
+    let vals: Vec<T> = gen_vals::<T>(c.dt, n, c.vseed, c.op);
+    let a = Array::new(vals.clone(), c.shape.clone()).unwrap();
+    let (axis, kd, op, expected) = (c.axis, c.kd, c.op, c.expected);
+    macro_rules! cnt { ($m:ident, $tr:ident) => {{
+        let (p1, p2, ch) = three!(a, T, |x| $tr::$m(x, axis, kd));
+        finish(p1, p2, ch, expected, &|r| judge(&vals, r, expected, false, &|l: &Array<T>| $tr::$m(l, None, None), &|lane| native_cnt(op, lane)))
+    }} }
+    Some(match op { "count_nonzero" => cnt!(count_nonzero, ArrayCount), "argmax" => cnt!(argmax, ArraySearch), "argmin" => cnt!(argmin, ArraySearch), _ => return None })
+}
+fn run_num<T: Val + Numeric>(c: &Case) -> Option<Verdict> {
+    if !EXTREME.contains(&c.op) { return run_any::<T>(c); }
+    let n: usize = c.shape.iter().product();
+    let vals: Vec<T> = gen_vals::<T>(c.dt, n, c.vseed, c.op);
+    let a = Array::new(vals.clone(), c.shape.clone()).unwrap();
+    let (axis, op, expected) = (c.axis, c.op, c.expected);
+    macro_rules! red { ($m:ident) => {{
+        let (p1, p2, ch) = three!(a, T, |x| ArrayExtrema::$m(x, axis));
+        finish(p1, p2, ch, expected, &|r| judge(&vals, r, expected, false, &|l: &Array<T>| ArrayExtrema::$m(l, None), &|lane| native_val(op, lane)))
+    }} }
+    Some(match op { "max" => red!(max), "min" => red!(min), "nanmax" => red!(nanmax), "nanmin" => red!(nanmin), "amax" => red!(amax), "amin" => red!(amin), _ => return None })
+}
+fn run_ops<T: Val + NumericOps>(c: &Case) -> Option<Verdict> {
+    if !(FOLD.contains(&c.op) || SCAN.contains(&c.op)) { return run_num::<T>(c); }
+    let n: usize = c.shape.iter().product();
+    let vals: Vec<T> = gen_vals::<T>(c.dt, n, c.vseed, c.op);
+    let a = Array::new(vals.clone(), c.shape.clone()).unwrap();
+    let (axis, op, expected) = (c.axis, c.op, c.expected);
+    macro_rules! red { ($m:ident, $scan:expr) => {{
+        let (p1, p2, ch) = three!(a, T, |x| ArraySumProdDiff::$m(x, axis));
+        finish(p1, p2, ch, expected, &|r| judge(&vals, r, expected, $scan, &|l: &Array<T>| ArraySumProdDiff::$m(l, None), &|lane| native_val(op, lane)))
+    }} }
     Some(match op {
-        "sum" => red!(sum), "prod" => red!(prod), "nansum" => red!(nansum), "nanprod" => red!(nanprod),
-        "max" => red!(max), "min" => red!(min), "nanmax" => red!(nanmax), "nanmin" => red!(nanmin), "amax" => red!(amax), "amin" => red!(amin),
-        "cumsum" => scn!(cumsum), "cumprod" => scn!(cumprod), "nancumsum" => scn!(nancumsum), "nancumprod" => scn!(nancumprod),
-        "count_nonzero" => cnt!(count_nonzero), "argmax" => cnt!(argmax), "argmin" => cnt!(argmin),
+        "sum" => red!(sum, false), "prod" => red!(prod, false), "nansum" => red!(nansum, false), "nanprod" => red!(nanprod, false),
+        "cumsum" => red!(cumsum, true), "cumprod" => red!(cumprod, true), "nancumsum" => red!(nancumsum, true), "nancumprod" => red!(nancumprod, true),
         _ => return None,
     })
 }
 
 fn exec(op: &str, args: &[&str], expected: &str) -> Option<Verdict> {
+    if args.len() != 5 { return None; }
     let (shape, _) = parse_arr_raw(args[1]);
-    let n: usize = shape.iter().product();
     let axis: Option<isize> = parse_opt(args[2]);
     let kd: Option<bool> = match args[3] { "none" => None, "true" => Some(true), _ => Some(false) };
     let vseed: u64 = args[4].parse().ok()?;
-    match args[0] {
-        "i64" => run_typed::<i64>(op, vals_i64(n, vseed, op.contains("prod")), shape, axis, kd, expected),
-        "f64" => run_typed::<f64>(op, vals_f64(n, vseed), shape, axis, kd, expected),
+    let dt = args[0];
+    if !applicable(op, dt) { return None; }
+    let c = Case { op, dt, shape, axis, kd, vseed, expected };
+    match dt {
+        "i64" | "i64b" => run_ops::<i64>(&c), "f64" | "f64s" => run_ops::<f64>(&c), "f32" => run_ops::<f32>(&c),
+        "i8" => run_ops::<i8>(&c), "i16" => run_ops::<i16>(&c), "i32" => run_ops::<i32>(&c),
+        "u64" => run_num::<u64>(&c), "usize" => run_num::<usize>(&c), "isize" => run_num::<isize>(&c),
+        "u8" => run_num::<u8>(&c), "u16" => run_num::<u16>(&c), "u32" => run_num::<u32>(&c),
+        "bool" => run_any::<bool>(&c), "str" => run_any::<String>(&c),
         _ => None,
     }
 }
@@ -137,6 +509,6 @@ fn nontrivial(_op: &str, args: &[&str]) -> bool {
 }
 
 fn main() {
-    harness_main(Spec { prop: "C08", gen, exec, nontrivial, hang_secs: 30,
-        rule: "17 operations (10 reductions, count_nonzero/argmax/argmin x keepdims none/true/false, 4 scans) x every shape rank<=4 len<=3 (thorough: + rank 5 len<=2) x every axis in both spellings and `none` x i64 / f64 values (f64 with NaN, +-inf, +-0, subnormal, huge), out-of-range axes, seeded random rank 5-6. Oracle: per output position the model names the lane; the same real operation with axis=None on that lane must give the bit-identical value. non-trivial = rank>=2, axis given, lane longer than 1" });
+    harness_main(Spec { prop: "C08", gen, exec, nontrivial, hang_secs: 60,
+        rule: "17 operations (10 reductions, count_nonzero/argmax/argmin x keepdims none/true/false, 4 scans) x every shape rank<=4 len<=3 (thorough: + rank 5 len<=2) x every axis in both spellings and `none` x i64 / f64 values (f64 with NaN, +-inf, +-0, subnormal, huge), out-of-range axes, seeded random rank 5-6; robustness streams: 14 further element types / value classes (i64 and u64/usize/isize beyond 2^53 and next to the ends of the type, i8/i16/i32/u8/u16/u32 next to their ends, f64 subnormals and NaN first/last/random, f32, bool, String) on every shape rank<=3 and every axis; every zero-length shape x every axis incl. out-of-range; big_shapes (axis lengths 7-17 in every position, > 256 / 1024 / 4096 elements); lanes of 4100 elements with repeated extremes; random shapes with one axis of 7-17. Oracles: per output position the model names the lane; (a) the same real operation with axis=None on that lane must give the bit-identical value, (b) a plain-Rust reference over the lane values (exact integer sum/product/running totals, max/min with NaN rules, count of non-zeros, FIRST position of the extreme) must agree; every case is run twice on the plain receiver and once on Ok(array) through the Result-receiver impl, all three must answer alike. non-trivial = rank>=2, axis given, lane longer than 1" });
 }
